@@ -84,15 +84,15 @@ Definition sx_prep (p:prep) : sx :=
   | POther => SL [SA (s_ "other")]
   end.
 
-(* (collect (file-name ...) (failing-text ...) (arg ...)) -> res ((text ...) (remaining ...)), with
-   process_arg replaced by: text in failing-texts -> Sorry, else the text itself *)
+(* (collect (file-name ...) (marker ...) (arg ...)) -> res ((text ...) (remaining ...)), with
+   process_arg replaced by: text containing one of the markers -> Sorry, else the text itself *)
 Definition run_args (x:sx) : sx :=
   match x with
   | SL [c; fs; fl; a] =>
       match bool_of_sx c, strs_of_sx fs, strs_of_sx fl, strs_of_sx a with
       | Some collect, Some files, Some fails, Some args =>
           let isfile := fun s => mems s files in
-          let pa := fun t => if mems t fails then UErr (s_ "Sorry") t 0 else Ok t in
+          let pa := fun t => if existsb (fun m => (0 <=? pyfind t m)%Z) fails then UErr (s_ "Sorry") t 0 else Ok t in
           SL [SL (map (fun arg => sx_prep (prep_arg isfile arg)) args);
               sx_res (fun p => SL [sx_strs (fst p); sx_strs (snd p)]) (process_args isfile pa collect args)]
       | _, _, _, _ => sx_bad
